@@ -27,6 +27,7 @@ def cases(tier, seed):
             out.append(dict(fn='metric', metric=m, n=n))
             if n >= 2:
                 out.append(dict(fn='wrapper', metric=m, n=n))
+    out.append(dict(fn='wrapper', metric='residuals', n=1))
     for n in range(2, nmax + 1):
         out.append(dict(fn='endpoint_fit', n=n))
     for n in ([3] if tier == 'quick' else [3]):
@@ -158,6 +159,12 @@ def run(h, case):
             fr = lf.linear_fit_residuals(h.array(x0), h.array(y))
             bb, mm = lf.linear_fit(h.array(x0), h.array(y))
             h.prove(h.eq(fr, sum((yi - (mm * xi + bb)) ** 2 for xi, yi in zip(x0, y))), 'linear_fit_residuals == residuals of the end-point line')
+            # the same with every abscissa symbolic and no precondition: includes first x == last x, where the fit falls back to (0, 0)
+            bs, ms = lf.linear_fit(h.array(x), h.array(y))
+            want = sum((yi - (ms * xi + bs)) ** 2 for xi, yi in zip(x, y))
+            fr2 = lf.linear_fit_residuals(h.array(x), h.array(y))
+            fr3 = lf.linear_fit_residuals_points(h.array([[a, c] for a, c in zip(x, y)]))
+            h.prove(band(h.eq(fr2, want), h.eq(fr3, want)), 'linear_fit_residuals(_points) == residuals(y, m*x+b) with (b, m) = linear_fit(x, y), any x')
     elif fn == 'endpoint_fit':
         x = [h.real('x%d' % i) for i in range(n)]
         y = [h.real('y%d' % i) for i in range(n)]
